@@ -27,6 +27,8 @@ use crate::protocol::vmess::session::Session;
 use crate::util::dice;
 
 const AUTH_LEN: &[u8] = b"auth_len";
+const PACKET_LIMIT: usize = u16::MAX as usize;
+const MAX_PADDING_LENGTH: usize = 63;
 
 pub struct AEADBodyCodec {
     auth: Authenticator,
@@ -74,11 +76,11 @@ impl AEADBodyCodec {
         Self::new(header, session, |s| s.decoder_key(), |s| s.decoder_nonce())
     }
 
-    fn encode_chunk(&mut self, src: &mut BytesMut, dst: &mut BytesMut, session: &mut dyn Session) -> Result<(), aead::Error> {
+    fn encode_chunk(&mut self, src: &mut BytesMut, dst: &mut BytesMut, session: &mut dyn Session, limit: usize) -> Result<(), aead::Error> {
         let padding_length = self.next_padding_length();
         trace!("Encode payload; padding length={}", padding_length);
         let tag_size = self.auth.cipher.tag_size();
-        let encrypted_size = src.remaining().min(self.payload_limit - tag_size - self.chunk.size_bytes() - padding_length);
+        let encrypted_size = src.remaining().min(limit - tag_size - self.chunk.size_bytes() - padding_length);
         let encrypted_size_bytes = self.encode_size(encrypted_size + padding_length + tag_size, session.chunk_nonce())?;
         dst.extend_from_slice(&encrypted_size_bytes);
         let mut payload_bytes = src.split_to(encrypted_size);
@@ -107,13 +109,17 @@ impl AEADBodyCodec {
 
     pub fn encode_payload(&mut self, mut src: BytesMut, dst: &mut BytesMut, session: &mut dyn Session) -> Result<(), aead::Error> {
         while src.has_remaining() {
-            self.encode_chunk(&mut src, dst, session)?;
+            self.encode_chunk(&mut src, dst, session, self.payload_limit)?;
         }
         Ok(())
     }
 
+    /// A datagram travels in exactly one chunk: one that does not fit the 16-bit length field is refused, never truncated.
     pub fn encode_packet(&mut self, mut src: BytesMut, dst: &mut BytesMut, session: &mut dyn Session) -> Result<(), aead::Error> {
-        self.encode_chunk(&mut src, dst, session)
+        if src.remaining() > PACKET_LIMIT - self.auth.cipher.tag_size() - self.chunk.size_bytes() - MAX_PADDING_LENGTH {
+            return Err(aead::Error);
+        }
+        self.encode_chunk(&mut src, dst, session, PACKET_LIMIT)
     }
 
     pub fn decode_packet(&mut self, src: &mut BytesMut, session: &mut dyn Session) -> Result<Option<BytesMut>, aead::Error> {
